@@ -286,8 +286,59 @@ def gen_events(rec, r, thorough):
             edit(rec.last)
             rec.rec_derive(which, dict(vals), {})                 # an equal configuration, another dict object
     n_obj_hist = len(rec.evs) - n_before
+    # ---- names RELATED to the identifier's own fields: construct -> print -> parse, and configuration -> comment
+    n_before = len(rec.evs)
+    for (c, p, d, v) in [(1, 2, 3, 4), (12345, 17, 0, 5), (99999, 9998, 9998, 99), (0, 0, 0, 0), (4711, 0, 815, 7),
+                         (r.randrange(100000), r.randrange(9999), r.randrange(9999), r.randrange(100))]:
+        if c == 9999:
+            c = 1
+        for prj in (True, False):
+            pp = p if prj else 0                                  # a device-settings identifier has project 0000
+            head = "%05d-%04d-%04d-%02d" % (c, pp, d, v)
+            other = "%05d-%04d-%04d-%02d" % (c, pp, d, (v + 1) % 100)
+            related = [head, head + " Reader A", head + "x", head + " " + head, head + "  two", other, other + " Reader A", head[:17],
+                       head[:-1], " " + head, head + " (version %02d)" % v, "Reader (version %02d)" % v, "(version %02d)" % v,
+                       "Reader A (version %02d) x" % v, str(rec.ConfigId(c, pp, d, v, "Reader A")), str(rec.ConfigId(c, pp, d, v, None)) + " ",
+                       "%05d" % c, "%05d-%04d" % (c, pp), str(rec.ConfigId(None, None, None, v, "Reader A"))]
+            for nm in related:
+                rec.rec_id(c, pp, d, v, nm)
+                rec.rec_id(None, None, None, v, nm)
+                vals = {1: _int_bytes(r, c), 2: _int_bytes(r, d), (6 if prj else 3): nm.encode(), (7 if prj else 4): _int_bytes(r, v)}
+                if prj:
+                    vals[5] = _int_bytes(r, pp)
+                rec.rec_derive("prj" if prj else "dev", vals, {})
+    n_related = len(rec.evs) - n_before
+    # ---- names whose first / last / only character is one that codecs and str methods treat specially, and names
+    #      that are not UTF-8 at all; through the configuration (bytes -> name -> comment) and construct -> print -> parse
+    n_before = len(rec.evs)
+    special = ["\ufeff", "\u200b", "\u00a0", "\u2028", "\u2029", "\u0085", "\x1c", "\x1d", "\x1e", "\x1f", "\x0b", "\x0c", "\r", "\t", " ",
+               "\U0001F600", "\U00010000", "\U0010FFFF", "\u0301", "\u20dd", "\ufffd", "\ufffe", "\x00", "\x7f", "\u00ad", "\u202e"]
+    for k, ch in enumerate(special):
+        for nm in (ch, ch + "Name", "Name" + ch, ch + ch, ch + "Name" + ch, "Na" + ch + "me"):
+            rec.rec_id(r.choice([1, 12345]), 2, 3, 4, nm)
+            rec.rec_id(None, None, None, 4, nm)
+            for which in ("prj", "dev"):
+                vals = {(6 if which == "prj" else 3): nm.encode("utf-8"), (7 if which == "prj" else 4): b"\x04"}
+                if (k + len(nm)) % 2:                             # numeric scheme complete / name-only fallback
+                    vals.update({1: b"\x30\x39", 5: b"\x02", 2: b"\x03"})
+                rec.rec_derive(which, vals, {})
+    undecodable = [b"\xff", b"\xfe\xff", b"\xc3", b"ab\x80", b"\xed\xa0\x80", b"\xc0\x80", b"\xe0\x80\x80", b"\xf4\x90\x80\x80",
+                   b"\xef\xbb", b"\xef\xbb\xbf\xff", b"Name\xe2\x82", b"\xf5\x80\x80\x80", b"\xff\xfeN\x00"]
+    signature = [b"\xef\xbb\xbf", b"\xef\xbb\xbfName", b"\xef\xbb\xbf\xef\xbb\xbfName", b"\xef\xbb\xbf ", b"Name\xef\xbb\xbf"]
+    for nb in undecodable + signature:
+        for which in ("prj", "dev"):
+            for scheme in (True, False):
+                vals = {(6 if which == "prj" else 3): nb, (7 if which == "prj" else 4): b"\x04"}
+                if scheme:
+                    vals.update({1: b"\x30\x39", 5: b"\x02"})
+                rec.rec_derive(which, vals, {})
+                mine, others, over = (6, 3, 4) if which == "prj" else (3, 6, 7)
+                # the undecodable name belongs to the OTHER kind (whose version is present): this kind's identifier is fine
+                rec.rec_derive(which, {**vals, mine: b"ok", others: nb, over: b"\x05"}, {})
+    n_special = len(rec.evs) - n_before
     return {"numeric_range_ids": n_numeric, "id_events": n_ids, "parse_events": n_parse, "derive_events": n_derive,
-            "returned_object_history_events": n_obj_hist}
+            "returned_object_history_events": n_obj_hist, "names_related_to_own_fields_events": n_related,
+            "special_character_and_undecodable_name_events": n_special}
 
 
 _HEAD = re.compile(r"\d{5}-\d{4}-\d{4}-\d{2}")
